@@ -125,6 +125,10 @@ let handle (w : string list) : string =
        | Some s -> show_loop (session_send s (nbig seq0) (List.map bytes_of_hex (split_list ivs))
                                 (op_of fn body ent cmd) (ni lun) (request_of req) (script_of script))
        | None -> "nosession")
+  | ["ssclose"; integ; k1; aeskey; local; remote; seq0; ivs; script] ->
+      (match mk_session (ni integ) (bytes_of_hex k1) (bytes_of_hex aeskey) (nbig local) (nbig remote) with
+       | Some s -> show_loop (session_close s (nbig seq0) (List.map bytes_of_hex (split_list ivs)) (script_of script))
+       | None -> "nosession")
   | ["hs"; user; pw; kg; priv; lookup; auth; integ; conf; random; sc1; sc2; sc3] ->
       let o = { so_user = bytes_of_hex user; so_password = bytes_of_hex pw; so_kg = bytes_of_hex kg;
                 so_priv = ni priv; so_lookup = (lookup = "1") } in
